@@ -55,6 +55,7 @@ type c14Arg struct {
 	Relaxed bool   `json:"relaxed"`
 	Workers int    `json:"workers"`
 	K       int    `json:"k"` // max number of injected faults
+	Adapter bool   `json:"adapter,omitempty"` // the storage sits on the library's LedgerBaseStorage adapter over the faulting ledger
 }
 
 func buildHistory(T uint32, ops []Op) (*World, error) {
@@ -85,11 +86,16 @@ func c14Task(raw json.RawMessage) TaskResult {
 		return res
 	}
 	res.Counters = map[string]int{}
+	ViaLedgerAdapter = a.Adapter
+	defer func() { ViaLedgerAdapter = false }()
 	ops := c14Histories()[a.Hist]
 	if a.Prefix > 0 && a.Prefix < len(ops) {
 		ops = ops[:a.Prefix]
 	}
 	name := fmt.Sprintf("history %d[:%d], relaxed=%v, workers=%d", a.Hist, len(ops), a.Relaxed, a.Workers)
+	if a.Adapter {
+		name += ", through LedgerBaseStorage"
+	}
 	// fault-free twin
 	tw, err := buildHistory(a.T, ops)
 	if err != nil {
@@ -145,7 +151,7 @@ func c14Task(raw json.RawMessage) TaskResult {
 				break
 			}
 		}
-		res.Distinct = append(res.Distinct, fmt.Sprintf("%d:%d/%v/%d/%v", a.Hist, len(ops), a.Relaxed, a.Workers, set))
+		res.Distinct = append(res.Distinct, fmt.Sprintf("%d:%d/%v/%d/%v/%v", a.Hist, len(ops), a.Relaxed, a.Workers, set, a.Adapter))
 	}
 	if len(res.Samples) < 1 {
 		res.Samples = append(res.Samples, fmt.Sprintf("%s: %d ledger mutations in the fault-free commit, %d fault sets; history [%s]", name, M, len(sets), OpsString(ops)))
@@ -287,7 +293,7 @@ func c14RunWith(build func() (*World, error), workers int, relaxed bool, set []i
 
 func init() {
 	RegisterCheck(&CheckDef{ID: "C14", Level: "fault_enumeration", Run: func(r *Run) {
-		r.Rule = "for every history of a corpus (pending write sets of 2-7 ledger mutations: stores and deletions, three owners, a temporary-address container, inlined children, the relaxed commit's small-write-set path), both commits, 1-3 workers: EVERY set of up to k failing ledger mutations (positions counted across retries, so faults also hit retries) is injected; after every failed attempt: an external error wrapping the ledger's error is returned, every change not durably written is still in the write set (same slab object), Retrieve of every identifier and a deep read of every container return the latest values, no slab is written twice with different bytes; retrying until success leaves the ledger byte-identical to the fault-free twin and no owned change pending. distinct_nontrivial = distinct (history, commit kind, workers, fault set) cases"
+		r.Rule = "for every history of a corpus (pending write sets of 2-7 ledger mutations: stores and deletions, three owners, a temporary-address container, inlined children, the relaxed commit's small-write-set path), both commits, 1-3 workers, directly on the faulting BaseStorage and through the library's LedgerBaseStorage adapter over a faulting key/value ledger: EVERY set of up to k failing ledger mutations (positions counted across retries, so faults also hit retries) is injected; after every failed attempt: an external error wrapping the ledger's error is returned, every change not durably written is still in the write set (same slab object), Retrieve of every identifier and a deep read of every container return the latest values, no slab is written twice with different bytes; retrying until success leaves the ledger byte-identical to the fault-free twin and no owned change pending. distinct_nontrivial = distinct (history, commit kind, workers, fault set) cases"
 		r.Assumptions = []string{
 			"for the order-relaxed commit with several workers the order of stores depends on real goroutine scheduling in this check; the oracle is schedule-independent (which mutations succeeded is read from the ledger's own log); C16/C04 enumerate the schedules themselves",
 			"k = 2 in the quick tier, 3 in the thorough tier",
@@ -306,6 +312,8 @@ func init() {
 					for _, wk := range []int{1, 2, 3} {
 						args = append(args, c14Arg{T: 256, Hist: h, Prefix: p, Relaxed: relaxed, Workers: wk, K: k})
 					}
+					// the same through the library's own ledger adapter (BaseStorage over a key/value ledger)
+					args = append(args, c14Arg{T: 256, Hist: h, Prefix: p, Relaxed: relaxed, Workers: 2, K: k, Adapter: true})
 				}
 			}
 		}
@@ -367,8 +375,11 @@ func OFaults(w *World, k int) error {
 		}
 		return x, nil
 	}
+	defer func() { ViaLedgerAdapter = false }()
 	for _, relaxed := range []bool{false, true} {
 		for _, wk := range []int{1, 2} {
+			// workers = 2 of the deterministic commit runs through the library's LedgerBaseStorage adapter
+			ViaLedgerAdapter = !relaxed && wk == 2
 			if relaxed && wk > 1 {
 				// with several workers the order in which the order-relaxed commit issues its ledger calls
 				// depends on real goroutine scheduling in this (sequential) build: the corpus tasks above run
